@@ -129,8 +129,12 @@ ROW_HEADER = ('Require Import Vault Row Table Grid Tableabs Tablexml Tablechk.\n
               'Definition chkrow (c : rruns * rop * rruns * list Z) : nat := let \'(pre, o, post, m) := c in chk_row pre o post m.\n')
 
 
-def row_sweep(tier):
-    cases = _row_sweep_cases(tier)
+def row_sweep(tier, only=None):
+    cases = [only] if only else _row_sweep_cases(tier)
+    if only:
+        terms = _row_sweep_worker(cases)
+        bad, errors = common.run_shards(ROW_HEADER, terms, 'chkrow', 'rowsweep')
+        return cases, bad, errors
     n = 16
     chunks = [cases[i::n] for i in range(n)]
     ctx = multiprocessing.get_context('fork')
@@ -190,6 +194,9 @@ def run_table_check(prop, tier, seed, replay, checker, layers, soft_codes, kinds
         cases = [payload['case']] if 'case' in payload else []
         results, bad, errors = evaluate(cases, checker, prop.lower()) if cases else ([], {}, [])
         sweep = None
+        if 'row_run_repeats' in payload:
+            kind, x, rep = payload['operation']
+            sweep = row_sweep(tier, only=(tuple(payload['row_run_repeats']), kind, x, rep))
     else:
         jobs = plan(tier, rng, kinds)
         gen = drive(jobs)
@@ -252,7 +259,12 @@ def run_table_check(prop, tier, seed, replay, checker, layers, soft_codes, kinds
             else:
                 violations.append((common.write_replay(prop, seed, 'vault-' + common.digest(key)[:8], payload), False))
         soft.update({('sweep', k): c for k, c in sbad.items() if c in (3, 8)})
-    ex = extra(tier, rng, odfdo, known) if (extra and not replay) else dict(violations=[], coverage={}, errors=[], known_seen=[])
+    if extra and not replay:
+        ex = extra(tier, rng, odfdo, known)
+    elif extra and replay and 'name' in payload:
+        ex = extra(tier, rng, odfdo, known, only=(payload['kind'], payload['name']))
+    else:
+        ex = dict(violations=[], coverage={}, errors=[], known_seen=[])
     if gen_error:
         ex['errors'] = list(ex['errors']) + [gen_error]
     violations += ex['violations']; errors += ex['errors']; known_seen += ex.get('known_seen', [])
